@@ -560,6 +560,73 @@ theorem memmap_flag_only_counterexample :
       (unlockEv h 0).2 = .ok ∧ isLocked (unlockEv h 0).1 1 = true ∧ isLocked (unlockEv h 0).1 0 = false := by
   decide
 
+/-- **`TensorDictParams(lock=True)`, pinned `_propagate_lock`** ("we don't want to double-lock the content"): the wrapper (a container
+of one tensordict, its content) sets its own flag and skips a content that is locked already, so the content never lists the
+wrapper among its lock parents: `LockClosed` fails and the content is unlocked on its own while the wrapper stays locked.
+The repaired code propagates unconditionally, like every other container (`lock_establishes`). -/
+theorem params_locked_content_counterexample :
+    let s := mk [.viaCtor [] leafA true, .viaCtor [("params", 0)] [] false]
+    let h := s.heap.upd 1 (fun n => { n with flag := some true })      -- the pinned `_propagate_lock`: the flag, no descent
+    isLocked h 1 = true ∧ isLocked h 0 = true ∧ 1 ∉ parentsOf h 0 ∧
+      (unlockEv h 0).2 = .ok ∧ isLocked (unlockEv h 0).1 1 = true ∧ isLocked (unlockEv h 0).1 0 = false ∧
+      (unlockEv (lockEv s.heap 1).1 0).2 = .errLock := by
+  decide
+
+/-- **views have no lock of their own**: `lock_()` / `unlock_()` of a `_SubTensorDict` never change any tensordict — they return
+iff they would be no-ops and raise otherwise — and a view reports the lock of its source; the legacy lazy views
+(`_CustomOpTensorDict`) forward to their source, so everything proved about `lock_` / `unlock_` (`lock_establishes`,
+`member_unlock_refused`, `closed_invariant`) applies to calls made through them. -/
+theorem view_lock_frame (h : Heap) (src : Nat) :
+    (subLockEv h src).1 = h ∧ (subUnlockEv h src).1 = h ∧
+    ((subLockEv h src).2 = .okNoop ↔ viewIsLocked h src = true) ∧
+    ((subUnlockEv h src).2 = .okNoop ↔ viewIsLocked h src = false) ∧
+    customLockEv h src = lockEv h src ∧ customUnlockEv h src = unlockEv h src := by
+  unfold subLockEv subUnlockEv viewIsLocked customLockEv customUnlockEv
+  cases isLocked h src <;> simp
+
+/-- **the functions `Model/C05Lock.lean` transcribes are the ones it was transcribed from**: fingerprints of their syntax trees
+(regenerated from the source on every run into `Gen.LockTable.lockCode`; docstrings, comments, annotations and formatting do
+not count). The lock code of `TensorDictParams` (a container of one tensordict), `_SubTensorDict` (no lock state: `is_locked`
+is the source's, `lock_` / `unlock_` refuse any change), `_CustomOpTensorDict` (forwards to its source) and
+`PersistentTensorDict` (`_propagate_lock` / `_propagate_unlock` of a plain container over the nested tensordicts it has
+instantiated) is pinned here too. An edit of any of them breaks this obligation: the transcription has to be looked at again,
+even if no sampled history exposes the difference. -/
+theorem transcribed_lock_code : Gen.LockTable.lockCode = [
+    ("tensordict/base.py", "TensorDictBase.is_locked", "getter", 43322798029706),
+    ("tensordict/base.py", "TensorDictBase.is_locked", "setter", 262072616274708),
+    ("tensordict/base.py", "TensorDictBase._propagate_lock", "def", 103635649489610),
+    ("tensordict/base.py", "TensorDictBase._propagate_unlock", "def", 35840831123717),
+    ("tensordict/base.py", "TensorDictBase._check_unlock", "def", 103734508884792),
+    ("tensordict/base.py", "TensorDictBase.lock_", "def", 127057565282016),
+    ("tensordict/base.py", "TensorDictBase.unlock_", "def", 217178315028388),
+    ("tensordict/base.py", "TensorDictBase._lock_parents_weakrefs", "getter", 8312859044969),
+    ("tensordict/utils.py", "lock_blocked", "def", 105446566695188),
+    ("tensordict/utils.py", "_lock_after_memmap", "def", 106074028361656),
+    ("tensordict/_lazy.py", "LazyStackedTensorDict.is_locked", "getter", 136072267606293),
+    ("tensordict/_lazy.py", "LazyStackedTensorDict._lock_parents_weakrefs", "getter", 198575112916678),
+    ("tensordict/_lazy.py", "LazyStackedTensorDict._propagate_lock", "def", 5793774695841),
+    ("tensordict/_lazy.py", "LazyStackedTensorDict._propagate_unlock", "def", 133762776065936),
+    ("tensordict/_lazy.py", "LazyStackedTensorDict.share_memory_", "def", 205896969063172),
+    ("tensordict/_lazy.py", "_CustomOpTensorDict.is_locked", "getter", 80264561221847),
+    ("tensordict/_lazy.py", "_CustomOpTensorDict.lock_", "def", 142901424272633),
+    ("tensordict/_lazy.py", "_CustomOpTensorDict.unlock_", "def", 124262843791399),
+    ("tensordict/_lazy.py", "_CustomOpTensorDict._remove_lock", "def", 123699406787815),
+    ("tensordict/_lazy.py", "_CustomOpTensorDict._propagate_lock", "def", 248999399360187),
+    ("tensordict/_lazy.py", "_CustomOpTensorDict._propagate_unlock", "def", 279884575396143),
+    ("tensordict/_td.py", "_SubTensorDict.is_locked", "getter", 80264561221847),
+    ("tensordict/_td.py", "_SubTensorDict.lock_", "def", 200125717878366),
+    ("tensordict/_td.py", "_SubTensorDict.unlock_", "def", 205928275172698),
+    ("tensordict/_td.py", "_SubTensorDict._remove_lock", "def", 97375184355089),
+    ("tensordict/_td.py", "_SubTensorDict._propagate_lock", "def", 210018368006843),
+    ("tensordict/_td.py", "TensorDict.share_memory_", "def", 233031537609033),
+    ("tensordict/nn/params.py", "TensorDictParams.is_locked", "getter", 43322798029706),
+    ("tensordict/nn/params.py", "TensorDictParams._propagate_lock", "def", 255951577204837),
+    ("tensordict/nn/params.py", "TensorDictParams._propagate_unlock", "def", 78363313181804),
+    ("tensordict/nn/params.py", "_unlock_and_set.__call__", "def", 214035718547903),
+    ("tensordict/persistent.py", "PersistentTensorDict._propagate_lock", "def", 30032085879087),
+    ("tensordict/persistent.py", "PersistentTensorDict._propagate_unlock", "def", 163713135868380)] := by
+  decide +kernel
+
 /-- the repaired `memmap_` on the same tree refuses -/
 example :
     let s := mk [.viaCtor [] leafA false, .viaCtor [("b", 0)] leafA false, .viaMemmap 1]
